@@ -26,14 +26,16 @@ CHECKS.update({
         category="model_checking",
         technique="explicit-state model checking of the implementation: BFS over operation histories with state de-duplication, every transition executed on the real engine and compared with a from-scratch reference evaluator",
         text=("For every program of a curated set (one shape per mechanism: cut-off chains, conditional dependencies, firewalls, projections, "
-              "firewall chains/switches, unordered/concurrent reads, external inputs) and of a systematic universe (all 2-3 node programs over "
-              "the body/style alphabet), a breadth-first search visits every history of sessions (set/update/refresh, no-change writes, commit "
+              "firewall chains/switches, unordered/concurrent reads, external inputs, partial executors that panic outside their domain "
+              "and are demanded only behind a guard) and of a systematic universe (all 2-3 node programs over "
+              "the body/style alphabet), a breadth-first search visits every history of sessions (set/update/refresh, no-change writes, one input assigned twice, commit "
               "or drop), queries and world changes up to depth 3 (quick) / 4-5 (thorough), de-duplicated on the engine's complete persisted "
               "state. Every user value, every value handed to an executor and every SetInputResult is compared with the from-scratch model."),
         design_ref="DESIGN.md 4/C01",
         note=("Sequential histories under the default schedule; values in {0,1,2}; <=2 inputs + <=1 external input; in-memory storage engine. "
-              "State abstraction (timestamps compared only for equality with the current epoch) is argued in DESIGN.md. Known findings F10a/F10b "
-              "(stale values behind firewalls) are reported as KNOWN-FINDING, identified by history-shape triggers."),
+              "State abstraction (timestamps compared only for equality with the current epoch) is argued in DESIGN.md. Known findings F10a-c "
+              "(stale values behind firewalls) and F19 (an undemanded firewall with a partial executor is repaired eagerly and its panic reaches the user) "
+              "are reported as KNOWN-FINDING, identified by history-shape triggers."),
     ),
     "C03": dict(
         category="model_checking",
@@ -121,7 +123,8 @@ CHECKS.update({
               "executor panic reaches the caller, nothing else panics (process-wide hook + panics swallowed by detached tasks), the same query "
               "again and an edit + query of every node return from-scratch values, the engine shuts down and a new engine on the same store "
               "answers from scratch. S: victim cancelled at every point while a second task queries the same root, all schedules with <= 1 (2) "
-              "deviations."),
+              "deviations. Helpers: executors that hand their reads to spawned helper tasks and return without joining them (the helper closes a "
+              "cycle / finishes after the executor returned), all schedules with <= 2 (3) deviations: what is published must account for the helpers."),
         design_ref="DESIGN.md 4/C05",
         note=("Suspension points: storage reads (single-flight loads can suspend), the engine's cooperative yields, lock waits, joins. The insert/remove "
               "futures of the shipped storage engines never suspend and are therefore not cancellation points (with a user-supplied storage engine whose "
@@ -134,9 +137,12 @@ CHECKS.update({
               "on 3 nodes with <= 3 (thorough: 4) edges x every history to depth 3 (4) over {set a switching bit, query all nodes in every order, "
               "query one node}; oracle = nodes on a cycle of the input-determined graph evaluate to their cycle default, all others as from scratch "
               "with the defaults substituted; every request completes. S: 2-3 tasks enter one strongly connected component (2-cycle, 3-cycle through "
-              "a firewall, two cycles sharing a node + outside consumer) from different members, all schedules with <= 2 (3) deviations."),
+              "a firewall, two cycles sharing a node + outside consumer; two cycles through a shared tail whose head reads both branches concurrently "
+              "(join_all) or in spawned helper tasks; executors whose helpers outlive them) from different members, all schedules with <= 2 (3) "
+              "deviations. A member's excuse 'its read came after the unwinding' (F8) is decided per execution from the callee registrations the "
+              "engine had made when it detected the cycle (hook)."),
         design_ref="DESIGN.md 4/C06",
-        note="Known findings F8 (cycle membership only along the first cyclic read of each member) and F14 (cycles closed through a firewall by an edit) are reported as KNOWN-FINDING; projections are not placed on cycles.",
+        note="Known findings F8 (cycle membership only along the first cyclic read of each member), F14 (cycles closed through a firewall by an edit) and F18 (a member cancelled together with its join-ing caller is recomputed from the defaults) are reported as KNOWN-FINDING; projections are not placed on cycles.",
     ),
     "C16": dict(
         category="exploration",
